@@ -39,6 +39,7 @@ class MemWriter:
         self.die_after_write = None
         self.lost_write = "error"
         self.stop_requests = 0
+        self.close_called = False
 
     def write(self, data):
         if self.closed:
@@ -63,6 +64,7 @@ class MemWriter:
             raise ConnectionResetError("Connection lost")
 
     def close(self):
+        self.close_called = True
         if not self.closed:
             self.closed = True
             self.loop.call_soon(self._connection_lost)
